@@ -742,6 +742,32 @@ def rule_r5(prog, res) -> None:
 ARITH_DUNDERS = ("__add__", "__radd__", "__sub__", "__rsub__", "__mul__", "__rmul__", "__truediv__", "__neg__", "__iadd__", "__isub__", "__imul__", "__itruediv__")
 
 
+def _ctor_alias_param(prog, ci: ClassInfo, attr: str) -> str | None:
+    """the constructor parameter whose array object is kept as `self.<attr>` without a copy (plain store, np.asarray,
+    astype(..., copy=False)); None when the constructor stores a fresh array"""
+    node = _ctor_node(prog, ci)
+    if node is None:
+        return None
+    init = prog.find_method(ci, "__init__")
+    params = set(init.param_names()[1:])
+    for x in walk_no_nested(node):
+        if isinstance(x, ast.Assign) and any(isinstance(t, ast.Attribute) and t.attr == attr and isinstance(t.value, ast.Name) and t.value.id == "self" for t in x.targets):
+            v = x.value
+            while True:
+                if isinstance(v, ast.Name):
+                    return v.id if v.id in params else None
+                if isinstance(v, ast.Call):
+                    fn = (dotted(v.func) or unparse(v.func)).split(".")[-1]
+                    if fn in ("asarray", "asanyarray", "atleast_1d", "atleast_2d") and v.args:
+                        v = v.args[0]
+                        continue
+                    if fn == "astype" and isinstance(v.func, ast.Attribute) and isinstance(kwarg(v, "copy"), ast.Constant) and kwarg(v, "copy").value is False:
+                        v = v.func.value
+                        continue
+                return None
+    return None
+
+
 def rule_r6(prog, res) -> None:
     """container arithmetic never modifies an operand: the operator methods (including augmented assignment
     operators, which `total += part` and sum() fall back to) build a new container and leave the arrays of
@@ -779,6 +805,33 @@ def rule_r6(prog, res) -> None:
                         while isinstance(r2, (ast.Attribute, ast.Subscript)):
                             r2 = r2.value
                         if v is not None and isinstance(v, (ast.Attribute, ast.Subscript)) and isinstance(r2, ast.Name) and r2.id in params:
+                            bad = x
+            if bad is None:
+                # a new container built from an operand's array and then updated in place: harmless only if the
+                # constructor stores a copy — `astype(t, copy=False)`, np.asarray(x) or a plain store keep the operand's array
+                for x in walk_no_nested(m.node):
+                    if not (isinstance(x, ast.AugAssign) and isinstance(x.target, (ast.Attribute, ast.Subscript))):
+                        continue
+                    tgt = x.target
+                    while isinstance(tgt, ast.Subscript):
+                        tgt = tgt.value
+                    if not (isinstance(tgt, ast.Attribute) and isinstance(tgt.value, ast.Name) and tgt.value.id not in params):
+                        continue
+                    from ..dataflow import all_def_values
+
+                    for v in all_def_values(m.node, tgt.value.id):
+                        if not (isinstance(v, ast.Call) and unparse(v.func) in ("type(self)", "self.__class__", ci.name, "cls")):
+                            continue
+                        par = _ctor_alias_param(prog, ci, tgt.attr)
+                        if par is None:
+                            continue
+                        init_ = prog.find_method(ci, "__init__")
+                        pos_ = [q.arg for q in init_.node.args.args][1:]
+                        arg = kwarg(v, par) or (v.args[pos_.index(par)] if par in pos_ and pos_.index(par) < len(v.args) else None)
+                        r2 = arg
+                        while isinstance(r2, (ast.Attribute, ast.Subscript)):
+                            r2 = r2.value
+                        if arg is not None and isinstance(arg, (ast.Attribute, ast.Subscript)) and isinstance(r2, ast.Name) and r2.id in params:
                             bad = x
             if bad is not None:
                 res.violation(
